@@ -148,6 +148,11 @@ func (db *DB) Delete(
 	if db.idx.mu.pointers[endDomain] != end {
 		endDomain, _ = db.idx.unprotectedSearch(end.TimeRange)
 	}
+	// Use the pointers as they are now: a garbage collection pass that ran during the
+	// offset lookup above shifts the file offsets of these pointers (it takes the index
+	// lock but not the delete lock), and the remnants built below must carry the
+	// shifted offsets, not the ones captured before the lookup.
+	start, end = db.idx.mu.pointers[startDomain], db.idx.mu.pointers[endDomain]
 
 	ok, err := validateDelete(startDomain, endDomain, &startOffset, &endOffset, db.idx)
 	if err != nil || !ok {
